@@ -21,6 +21,29 @@ MODEL_MAX_REQUESTS = 6
 FOREVER = 1e6
 
 
+class _NoTruth:
+    def __bool__(self):
+        raise ValueError('the truth value of an element-wise comparison is ambiguous')
+
+
+class OddT(tuple):
+    """array-like payload / result: a tuple whose `==` is element-wise and has no truth value (what numpy arrays
+    do).  The server never has a reason to compare payloads or results."""
+    __slots__ = ()
+
+    def __eq__(self, o):
+        return _NoTruth()
+
+    def __ne__(self, o):
+        return _NoTruth()
+
+    __hash__ = tuple.__hash__
+
+
+def _pl(r, dur, fail):
+    return OddT((r, dur, fail)) if r % 3 == 0 else (r, dur, fail)
+
+
 class StopConsumer(BaseException):
     """thrown into a stream generator by its consumer (not an Exception: like KeyboardInterrupt or CancelledError)"""
 
@@ -107,7 +130,7 @@ def run_case(case):
             log(('wfinish', r))
             if fail:
                 raise WorkErr(r)
-            return ('y', r)
+            return OddT(('y', r)) if r % 3 == 0 else ('y', r)
 
     def amain_wrapper():
         """AsyncServer: the callers are asyncio tasks of one event loop (cooperative-selector loop,
@@ -137,7 +160,7 @@ def run_case(case):
                 t0 = loop.time()
                 log(('call', r, int(bp), 0 if timeout >= FOREVER else 1))
                 try:
-                    y = await srv.call((r, dur, fail), timeout=timeout, backpressure=bp)
+                    y = await srv.call(_pl(r, dur, fail), timeout=timeout, backpressure=bp)
                     out = ('ok', y[1] if isinstance(y, tuple) and len(y) == 2 and y[0] == 'y' else repr(y))
                 except ServerBacklogFull:
                     out = ('full',)
@@ -162,7 +185,7 @@ def run_case(case):
                     async def data():
                         for it in items:
                             log(('call', it['r'], 0, 1))
-                            yield (it['r'], it['dur'], it['fail'])
+                            yield _pl(it['r'], it['dur'], it['fail'])
 
                     got = []
                     endk = 'end'
@@ -258,7 +281,7 @@ def run_case(case):
                 t0 = detsched.my_timed_wait()
                 log(('call', r, int(bp), 0 if timeout >= FOREVER else 1))
                 try:
-                    y = srv.call((r, dur, fail), timeout=timeout, backpressure=bp)
+                    y = srv.call(_pl(r, dur, fail), timeout=timeout, backpressure=bp)
                     out = ('ok', y[1] if isinstance(y, tuple) and len(y) == 2 and y[0] == 'y' else repr(y))
                 except ServerBacklogFull:
                     out = ('full',)
@@ -284,7 +307,7 @@ def run_case(case):
                     def data():
                         for it in items:
                             log(('call', it['r'], 0, 1))     # abandonable: the stream may be closed early
-                            yield (it['r'], it['dur'], it['fail'])
+                            yield _pl(it['r'], it['dur'], it['fail'])
 
                     got = []
                     endk = 'end'
